@@ -5,7 +5,7 @@ from .. import engines, harness, seqschema
 from ..pool import Pool
 from ..prng import Rng, derive
 
-BASE_W = {'new': 6, 'set': 5, 'setmany': 2, 'setmix': 2, 'seq_probe': 2, 'rel': 4, 'add': 3, 'remove': 3, 'clear': 1, 'assign': 2, 'create_in': 2,
+BASE_W = {'new': 6, 'set': 5, 'setmany': 2, 'setmix': 2, 'seq_probe': 2, 'late_link': 1, 'rel': 4, 'add': 3, 'remove': 3, 'clear': 1, 'assign': 2, 'create_in': 2,
           'del': 3, 'set_none': 1, 'setpk': 1, 'flush': 2, 'commit': 1, 'rollback': 1, 'seq_in': 2, 'new_rawfk': 1,
           'r_attr': 2, 'r_pk': 1, 'r_get': 1, 'r_exists': 1, 'r_select': 1, 'r_count': 1, 'r_aggr': 1, 'r_coll': 2,
           'r_todict': 1}
@@ -21,7 +21,7 @@ FOCUS = {
              'seq_in': 6},
     # obj.set(...) / constructors that touch several relationships at once, on the variants where a later part refuses
     'mix': {'setmix': 12, 'set': 6, 'create_in': 5, 'new': 8, 'remove': 3, 'add': 3, 'seq_probe': 3, 'del': 3},
-    'order': {'new': 10, 'rel': 6, 'del': 5, 'add': 3, 'create_in': 4, 'flush': 1},
+    'order': {'new': 10, 'rel': 6, 'del': 5, 'add': 3, 'create_in': 4, 'flush': 1, 'late_link': 6, 'oflush': 2},
 }
 
 SESSION_OPTS = [({}, 10), ({'immediate': True}, 2), ({'optimistic': False}, 2), ({'serializable': True}, 1),
@@ -62,6 +62,8 @@ def gen_case(seed, i, tier, focus='default', loading=False, tag='seq'):
         knobs['nplus1'] = r.choice([None, 0, 1, 3])
         knobs['prefetch'] = r.chance(0.3)
     variant = r.choice(list(seqschema.VARIANTS))
+    if focus == 'order' and r.chance(0.35):
+        variant = 'profile_pk'      # a primary key that is a reference: one more level of save-order dependencies
     if focus == 'mix':
         variant = r.choice(['car_nocascade', 'car_nocascade', 'car_nocascade', 'group_owner', 'base'])
     return {'engine': 'seq', 'seed': rs, 'variant': variant, 'knobs': knobs,
